@@ -399,6 +399,19 @@ func c20BuildCatalogue() *c20Catalogue {
 		s.post = func(u *lnwire.ChannelUpdate1) { u.ExtraOpaqueData = c20ExtraTLV }
 	}).build("xCU.extra:=tlv,unsigned"))
 	sem(&c.SemCU, cu(func(s *c20CUSpec) { s.extra = c20ExtraTLV }).build("xCU.extra=tlv,signed"))
+	// the same for the second node's direction (lnd has one branch per direction)
+	cu1 := func(f func(*c20CUSpec)) c20CUSpec { s := c20HonestCU(1, T+1); s.base = 8888; f(&s); return s }
+	sem(&c.SemCU, cu1(func(s *c20CUSpec) {}).build("xCU1.fresh,signed"))
+	sem(&c.SemCU, cu1(func(s *c20CUSpec) { s.signer = c20Evil }).build("xCU1.sig=evil"))
+	sem(&c.SemCU, cu1(func(s *c20CUSpec) { s.signer = c20Node1 }).build("xCU1.sig=other-node"))
+	sem(&c.SemCU, cu1(func(s *c20CUSpec) { s.ts = T }).build("xCU1.ts=t(equal),signed"))
+	sem(&c.SemCU, cu1(func(s *c20CUSpec) { s.ts = T - 1 }).build("xCU1.ts=t-1(stale),signed"))
+	sem(&c.SemCU, cu1(func(s *c20CUSpec) { s.max = capMsat + 1 }).build("xCU1.max=capacity+1,signed"))
+	sem(&c.SemCU, cu1(func(s *c20CUSpec) { s.max = capMsat + 999 }).build("xCU1.max=capacity+999msat,signed"))
+	sem(&c.SemCU, cu1(func(s *c20CUSpec) { s.mflags = 0 }).build("xCU1.no-max-htlc-flag,signed"))
+	sem(&c.SemCU, cu1(func(s *c20CUSpec) {
+		s.post = func(u *lnwire.ChannelUpdate1) { u.ChannelFlags ^= lnwire.ChanUpdateDirection }
+	}).build("xCU1.dir:=0,unsigned"))
 	// the tiny channel: an update that is fine for the big channel exceeds its capacity
 	{
 		s := c20HonestCU(0, T)
